@@ -5,6 +5,7 @@ import (
 	"fmt"
 	"hash/fnv"
 	"reflect"
+	"strconv"
 	"strings"
 )
 
@@ -923,7 +924,8 @@ func (hash *SexpHash) SexpString(ps *PrintState) string {
 			onKey++
 			switch s := key.(type) {
 			case *SexpStr:
-				str += indInner + `"` + s.S + `":`
+				// quoted and escaped like any other string
+				str += indInner + strconv.Quote(s.S) + ":"
 			case *SexpSymbol:
 				if asJSON {
 					str += indInner + `"` + s.name + `":`
